@@ -1,6 +1,8 @@
 package main
 
 import (
+	"github.com/aundis/formula"
+	"context"
 	"fmt"
 	"os"
 	"strconv"
@@ -28,6 +30,28 @@ func main() {
 		out.Close()
 	case "tables":
 		dumpTables(os.Args[2])
+	case "probe":
+		// one evaluation in a process of its own, for formulas that may take the whole process down (a fatal
+		// stack overflow cannot be recovered): prints the outcome class
+		src, err := formula.ParseSourceCode(unhx(os.Args[2]))
+		if err != nil {
+			fmt.Println("parse-error")
+			return
+		}
+		rn := formula.NewRunner()
+		rn.SetThis(map[string]interface{}{"a": 1, "s": "txt", "arr": []interface{}{1, 2}, "m": map[string]interface{}{"k": 1},
+			"h": func(x string) (interface{}, error) { return len(x), nil }, "g": func(x interface{}) (interface{}, error) { return 1, nil }})
+		var v interface{}
+		pan, _ := protect(func() { v, err = rn.Resolve(context.Background(), src.Expression) })
+		switch {
+		case pan:
+			fmt.Println("PANIC")
+		case err != nil:
+			fmt.Println("E")
+		default:
+			_ = v
+			fmt.Println("V")
+		}
 	case "fresh":
 		// one evaluation in a process that has evaluated nothing else: the reference for history independence
 		di, _ := strconv.Atoi(os.Args[2])
